@@ -9,6 +9,14 @@ import (
 
 // C05: counting and enumeration.  obs = (status count enumret closed (models...))
 func genC05(r *rand.Rand, idx int, tier string) *Prob {
+	p := genC05base(r, idx, tier)
+	if idx >= 40 && r.Intn(4) == 0 {
+		p.CP = true
+	}
+	return p
+}
+
+func genC05base(r *rand.Rand, idx int, tier string) *Prob {
 	// fixed special cases first
 	switch {
 	case idx < 7: // no constraint at all, n = 0..6
@@ -39,6 +47,9 @@ func genC05(r *rand.Rand, idx int, tier string) *Prob {
 func runC05(e *emitter, idx int, p *Prob) {
 	c := p.Sx()
 	meta := Meta{Class: p.Class + "/" + p.Front, Desc: p}
+	if p.CP {
+		meta.Class += "/cp"
+	}
 	e.begin(idx, c, meta)
 	var count, enumRet, closed int
 	var models [][]bool
@@ -48,12 +59,14 @@ func runC05(e *emitter, idx int, p *Prob) {
 			panic(fmt.Sprintf("parse error: %v", err))
 		}
 		s := solver.New(pb)
+		s.CuttingPlanes = p.CP
 		count = s.CountModels()
 		pb2, err := p.Build()
 		if err != nil {
 			panic(fmt.Sprintf("parse error: %v", err))
 		}
 		s2 := solver.New(pb2)
+		s2.CuttingPlanes = p.CP
 		ch := make(chan []bool)
 		done := make(chan int)
 		var enumPanic interface{}
